@@ -1099,7 +1099,29 @@ func (g *G) boolExpr(sc *scope, depth int) string {
 		}
 		return g.litOf(TBool, true)
 	}
-	switch g.pick("boolexpr", 12) {
+	switch g.pick("boolexpr", 13) {
+	case 12: // a length minus a constant, compared: uint64 arithmetic wraps on short slices (seeded change C01-35)
+		ss := g.varsOf(sc, func(v *Var) bool { return v.T.K == KSlice && !v.Big })
+		if len(ss) > 0 && !g.inIdx && !g.inKey {
+			v := ss[g.pick("lenminusvar", len(ss))]
+			k := 1 + g.pick("lenminusk", 4)
+			op := []string{"<", "<=", ">", ">="}[g.pick("lenminusop", 4)]
+			rhs := g.litOf(TU64, true)
+			if g.chance("lenminusrhsvar", 50) {
+				if e := g.nonConst(sc, TU64, 0); e != "" {
+					rhs = paren(e)
+				}
+			}
+			g.label("length-minus-constant-compared")
+			fn := []string{"len", "len", "cap"}[g.pick("lenminusfn", 3)]
+			if fn == "cap" && !v.CapKnown {
+				fn = "len"
+			}
+			if g.chance("lenminusflip", 30) {
+				return fmt.Sprintf("%s %s (uint64(%s(%s)) - %d)", rhs, op, fn, use(v), k)
+			}
+			return fmt.Sprintf("(uint64(%s(%s)) - %d) %s %s", fn, use(v), k, op, rhs)
+		}
 	case 11: // comparison of two NARROWING conversions whose operands agree below the target width
 		// and differ above it (truncation preserves neither equality nor order; seeded change C01-28)
 		if l := g.nonConst(sc, TU64, 0); l != "" && !g.inIdx && !g.inKey {
